@@ -890,12 +890,12 @@ class C20(Check):
     def cases(self, tier, rng, n):
         out = []
         # (a) exhaustive <= 2 preemptions, 2 threads, on the base declarations (each thread: one full call)
-        nbase = {"quick": 4, "thorough": len(BASE_PROGS), "search": 7}[tier]
+        nbase = {"quick": 6, "thorough": len(BASE_PROGS), "search": 7}[tier]
         items = []
         for p in BASE_PROGS[:nbase]:
             items.append({"op": "fwd", "prog": p, "threads": [[full_use(p)], [full_use(p)]], "points": FWD_POINTS, "mode": "vis"})
         # (b) random declarations / calls, 2-3 threads
-        nrand = {"quick": 30, "thorough": 150, "search": 40}[tier]
+        nrand = {"quick": 40, "thorough": 150, "search": 40}[tier]
         for _ in range(nrand):
             p = gen_prog(rng)
             nt = 2 if (tier == "quick" or rng.random() < 0.5) else 3
@@ -939,7 +939,7 @@ class C20(Check):
                     scheds = [random_schedule(rng, L, nt, rng.randint(1, 3)) for _ in range(80)]
             elif idx < nbase:
                 scheds = schedules_2(L, 2)
-                if tier == "quick" and idx >= 2:
+                if tier == "quick" and idx >= 4:
                     one = [s for s in scheds if len(s) <= 2]
                     two = [s for s in scheds if len(s) > 2]
                     rng.shuffle(two)
@@ -1190,7 +1190,7 @@ class C20(Check):
         ev["coverage"]["exhaustive"] = False
         ev["coverage"]["exhaustive_part"] = (
             "every schedule with <= 2 preemptions at shared-state lines, 2 threads x 1 full call, for the first "
-            + ("2 base declarations; <= 150 of them for each 2-thread registry program (quick)" if tier == "quick" else
+            + ("4 base declarations; <= 150 of them for each 2-thread registry program (quick)" if tier == "quick" else
                f"{len(BASE_PROGS)} base declarations, and with 3 threads for 2 of them; <= 150 for each 2-thread registry program (thorough)"))
 
 
